@@ -2,12 +2,14 @@
 META = dict(
   level_text='Bounded model checking of the mechanisms that decide where open paths contribute (contribution predicate, winding numbers of the region an open edge starts in), against the definition in the property, for all symbolic pre-states within bounds. Piece geometry and total length over all inputs are not decided (whole sweep).',
   level_note='Same invariant (I) and trusted base as C01.',
-  functions=['ClipperBase::IsContributingOpen', 'ClipperBase::SetWindCountForOpenPathEdge', 'AddPaths_ (open paths)'],
+  functions=['ClipperBase::IsContributingOpen', 'ClipperBase::SetWindCountForOpenPathEdge', 'AddPaths_ (open paths)', 'ClipperBase::IntersectEdges (open-path part)'],
   assumptions=['AEL prefixes of at most 3 edges', '|winding numbers| <= 10^6'],
   outside=['piece geometry and length (needs the whole sweep)'],
 )
 LMA = {'std::unique_ptr<Clipper2Lib::LocalMinima, std::default_delete<Clipper2Lib::LocalMinima> >& std::vector<std::unique_ptr<Clipper2Lib::LocalMinima, std::default_delete<Clipper2Lib::LocalMinima> >, std::allocator<std::unique_ptr<Clipper2Lib::LocalMinima, std::default_delete<Clipper2Lib::LocalMinima> > > >::emplace_back<std::unique_ptr<Clipper2Lib::LocalMinima': 'stub_locmin_append'}
+OSTEP = {'Clipper2Lib::ClipperBase::AddOutPt(': 'stub_addoutpt', 'Clipper2Lib::ClipperBase::StartOpenPath(': 'stub_startopen'}
 OBLIGATIONS = [
+  O('C05.c-intersect-open-step', 'eng_wind.cpp', 'harness_intersect_open_step', replace=OSTEP, unwind=4, timeout=300, bound='an open edge and a closed edge adjacent in either order; all clip types, fill rules, closed-edge type/direction, winding numbers |w|<=1000', desc='after IntersectEdges the open edge is hot exactly when it contributes on the far side of the closed edge; a point is emitted iff its contribution changed; the closed edge is untouched'),
   O('C05.d-addpaths-open-4', 'eng_units.cpp', 'harness_addpaths_open', defs=['ON=4'], replace=LMA, unwind=9, timeout=300, bound='open path of 4 vertices on [0,3]^2 (coincident vertices incl. last == first allowed)', desc='every vertex differing from its predecessor is kept in order; first flagged OpenStart, last OpenEnd; minima flagged open'),
   O('C05.a-contributing-open', 'eng_wind.cpp', 'harness_contrib_open', bound='4 clip types x 4 fill rules x |w|<=1e6', desc='IsContributingOpen == inside clip / outside both / outside clip'),
   O('C05.b-setwind-open', 'eng_wind.cpp', 'harness_setwind_open', unwind=6, bound='AEL prefix k<=3', desc='SetWindCountForOpenPathEdge computes winding numbers of the containing region'),
